@@ -114,6 +114,8 @@ package cachekv
 //@   loop 1 invariant 0 <= iterpos(1) && iterpos(1) <= iterlen(1) && store.mtx == 1
 //@   loop 1 invariant forall k string :: has(store.unsortedCache, k) == (old(has(store.unsortedCache, k)) && !(iteridx(1, k) < iterpos(1) && !bytes_lt(bytes(k), start) && (end == nil || bytes_lt(bytes(k), end))))
 //@   loop 1 invariant forall r int :: r != ref(store.unsortedCache) ==> Hmp_Str_S_anon_fa4d6974_v[r] == old(Hmp_Str_S_anon_fa4d6974_v[r])   // the presence sets of all other map[string]struct{} values
+//@   loop 2 invariant store.mtx == 1
+//@   loop 3 invariant store.mtx == 1
 // (seed C15e - the item's value copied with append([]byte(nil), v...), which turns an empty value into the nil tombstone -
 // is NOT detectable here: `unsorted` lives in heaps declared library state, so nothing can be said about the items)
 //@   ensures [domain] forall k string :: has(store.unsortedCache, k) == (old(has(store.unsortedCache, k)) && !(!bytes_lt(bytes(k), start) && (end == nil || bytes_lt(bytes(k), end))))
